@@ -22,7 +22,7 @@ import (
 
 func TestMain(m *testing.M) { harness.Main(m) }
 
-const rule = "C08: soft-delete models grands / parents (belongs to grand) / children (belongs to parent, has many toys) / toys / tags (many2many) over the C02 columns; every live row gets a twin (id+100) with identical column values, foreign keys and links which is soft-deleted through gorm (primary table) before the checked operation, followed by 0-2 further history steps (soft delete / unscoped delete of id subsets, each verified against the live/marked/gone model); the checked operation is a C02 chain (plus chains starting with Or) ending in one of the paths find, first/take/last, count, pluck, find-in-batches, rows+scanrows, scan, relation Joins/InnerJoins (one level Child->Parent with and without ON conditions; nested path Parent.Grand over a three-level soft-delete family, alone and combined with the one-level join in either order), preload (plain, nested, many2many, with conditions), association find/count (has many, many2many), update/updates/updatecolumn(s), delete (also repeated), each also under Unscoped(). Scoped reads must return exactly the live ids on which the reference predicate is TRUE, scoped writes must leave every marked row byte-identical and Delete must keep the physical row count; Unscoped reads see live and marked rows, Unscoped Delete removes physically. non-trivial = the chain has an OR (call or inside a unit) or a NOT and its predicate is TRUE on at least one pair live row + marked twin; distinct = data + history + chain + path"
+const rule = "C08: soft-delete models grands / parents (belongs to grand) / children (belongs to parent, has many toys) / toys / tags (many2many) over the C02 columns; every live row gets a twin (id+100) with identical column values, foreign keys and links which is soft-deleted through gorm (primary table) before the checked operation, followed by 0-2 further history steps (soft delete / unscoped delete of id subsets, each verified against the live/marked/gone model); the checked operation is a C02 chain (plus chains starting with Or) ending in one of the paths find, first/take/last, count, count followed by find / order+limit+find / pluck / first on the same chain value (pagination idiom), pluck, find-in-batches, rows+scanrows, scan, relation Joins/InnerJoins (one level Child->Parent with and without ON conditions; nested path Parent.Grand over a three-level soft-delete family, alone and combined with the one-level join in either order), preload (plain, nested, many2many, with conditions), association find/count (has many, many2many), update/updates/updatecolumn(s), delete (also repeated), each also under Unscoped(); count / pluck / scan / update / delete also on a model whose soft-delete field is declared as pointer (*gorm.DeletedAt). Scoped reads must return exactly the live ids on which the reference predicate is TRUE, scoped writes must leave every marked row byte-identical and Delete must keep the physical row count; Unscoped reads see live and marked rows, Unscoped Delete removes physically. non-trivial = the chain has an OR (call or inside a unit) or a NOT and its predicate is TRUE on at least one pair live row + marked twin; distinct = data + history + chain + path"
 
 // ---- models ----------------------------------------------------------------------------------------
 
@@ -42,6 +42,23 @@ type Parent struct {
 	GrandID   int
 	Grand     *Grand `gorm:"foreignKey:GrandID"`
 }
+
+// PParent declares its soft-delete field as a pointer; it has a table of its own
+// with the parents' rows (paths count, pluck, scan, update, delete).
+type PParent struct {
+	ID        int `gorm:"primaryKey"`
+	Ca        int
+	Cb        int
+	Cs        string
+	Cn        *int
+	Ct        *string
+	Cor       int
+	Band      string
+	Mark      int
+	DeletedAt *gorm.DeletedAt
+}
+
+func (PParent) TableName() string { return "p_parents" }
 
 // Grand is the third level of the nested join path Child -> Parent -> Grand.
 type Grand struct {
@@ -103,6 +120,7 @@ type Tag struct {
 var (
 	specParents  = cond.TableSpec{Name: "parents", Soft: true, Extra: []string{"grand_id"}}
 	specGrands   = cond.TableSpec{Name: "grands", Soft: true}
+	specPtr      = cond.TableSpec{Name: "p_parents", Soft: true}
 	specChildren = cond.TableSpec{Name: "children", Soft: true, Extra: []string{"parent_id"}}
 	specToys     = cond.TableSpec{Name: "toys", Soft: true, Extra: []string{"child_id"}}
 	specTags     = cond.TableSpec{Name: "tags", Soft: true}
@@ -185,6 +203,7 @@ func (h hop) String() string {
 type tcase struct {
 	Parents, Children, Toys, Tags table    // state after the twins were marked
 	Grands                        table    // third level (nested join paths only)
+	PtrModel                      bool     // the primary model is PParent (DeletedAt *gorm.DeletedAt)
 	JoinPath                      []string // relation join names in call order, e.g. ["Parent.Grand", "Parent"]
 	Links                         [][2]int
 	History                       []hop
@@ -212,6 +231,9 @@ func (c tcase) nested() bool {
 func (c tcase) primary() string {
 	if c.Path == "joins" {
 		return "children"
+	}
+	if c.PtrModel {
+		return "p_parents"
 	}
 	return "parents"
 }
@@ -250,6 +272,9 @@ func (c tcase) String() string {
 			un0 = ".Unscoped()"
 		}
 	}
+	if c.PtrModel {
+		b.WriteString(" model=PParent{DeletedAt *gorm.DeletedAt}")
+	}
 	fmt.Fprintf(&b, " op=%s/%s db%s%s%s", c.Path, c.Variant, un0, cond.CallsString(c.Calls), un1)
 	if c.Inline != nil {
 		fmt.Fprintf(&b, " inline(%s)", c.Inline)
@@ -271,7 +296,7 @@ func (c tcase) String() string {
 
 // ---- generation ---------------------------------------------------------------------------------
 
-var paths = []string{"find", "find", "first", "count", "pluck", "batches", "rows", "scan", "joins", "joins", "joins", "preload", "preload", "assoc", "assoc", "update", "update", "update", "delete", "delete", "delete"}
+var paths = []string{"find", "find", "first", "count", "count-then", "count-then", "pluck", "batches", "rows", "scan", "joins", "joins", "joins", "preload", "preload", "assoc", "assoc", "update", "update", "update", "delete", "delete", "delete"}
 
 func skipClass(cl string) bool { return harness.OpenClass("C08", cl) }
 
@@ -368,8 +393,14 @@ func genCase(rt *rapid.T) tcase {
 		}
 	}
 	switch c.Path {
+	case "count", "pluck", "scan", "update", "delete":
+		c.PtrModel = x.Pct(30)
+	}
+	switch c.Path {
 	case "find":
 		inline(30)
+	case "count-then":
+		c.Variant = []string{"find", "order-limit-find", "pluck", "first"}[x.N(4)]
 	case "first":
 		c.Variant = []string{"first", "take", "last"}[x.N(3)]
 		inline(30)
@@ -524,7 +555,22 @@ func (w *world) primModel() interface{} {
 	if w.c.Path == "joins" {
 		return &Child{}
 	}
-	return &Parent{}
+	return w.model(0)
+}
+
+// model returns the primary model value with the given key (parents paths).
+func (w *world) model(pk int) interface{} {
+	if w.c.PtrModel {
+		return &PParent{ID: pk}
+	}
+	return &Parent{ID: pk}
+}
+
+func (w *world) markedValue() interface{} {
+	if w.c.PtrModel {
+		return PParent{Mark: 7}
+	}
+	return Parent{Mark: 7}
 }
 
 func setup(c *tcase) (*world, error) {
@@ -536,7 +582,7 @@ func setup(c *tcase) (*world, error) {
 		return nil, fmt.Errorf("%s: %w", what, err)
 	}
 	joins := c.Path == "joins"
-	for _, s := range []cond.TableSpec{specParents, specChildren, specToys, specTags, specGrands} {
+	for _, s := range []cond.TableSpec{specParents, specChildren, specToys, specTags, specGrands, specPtr} {
 		if err := s.Create(d.SQL); err != nil {
 			return fail("create", err)
 		}
@@ -579,7 +625,13 @@ func setup(c *tcase) (*world, error) {
 		w.prim, w.primSpec = append(table(nil), c.Parents...), specParents
 	}
 	w.env = cond.Env{Base: d.DB}
-	if joins {
+	if c.PtrModel {
+		if err := specPtr.Insert(d.SQL, noExtra(toInsert(c.Parents, false))); err != nil {
+			return fail("insert p_parents", err)
+		}
+		w.primSpec = specPtr
+		w.env.MakeStruct = cond.StructMaker(reflect.TypeOf(PParent{}))
+	} else if joins {
 		w.env.MakeStruct = cond.StructMaker(reflect.TypeOf(Child{}))
 	} else {
 		w.env.MakeStruct = cond.StructMaker(reflect.TypeOf(Parent{}))
@@ -616,6 +668,8 @@ func (w *world) history() (string, error) {
 			var v interface{}
 			if w.c.Path == "joins" {
 				v = &Child{ID: r.ID, Ca: r.Ca, Cb: r.Cb, Cs: r.Cs, Cn: r.Cn, Ct: r.Ct, Cor: r.Cor, Band: r.Band, ParentID: r.FK}
+			} else if w.c.PtrModel {
+				v = &PParent{ID: r.ID, Ca: r.Ca, Cb: r.Cb, Cs: r.Cs, Cn: r.Cn, Ct: r.Ct, Cor: r.Cor, Band: r.Band}
 			} else {
 				v = &Parent{ID: r.ID, Ca: r.Ca, Cb: r.Cb, Cs: r.Cs, Cn: r.Cn, Ct: r.Ct, Cor: r.Cor, Band: r.Band}
 			}
@@ -904,7 +958,7 @@ func (w *world) run() (string, error) {
 		return "", nil
 	case "count":
 		var n int64
-		tx := w.chain(db.Model(&Parent{})).Count(&n)
+		tx := w.chain(db.Model(w.model(0))).Count(&n)
 		if tx.Error != nil {
 			return "Count failed: " + tx.Error.Error(), nil
 		}
@@ -917,9 +971,75 @@ func (w *world) run() (string, error) {
 			return fmt.Sprintf("Count returned %d, want %d = ids %v (reference predicate %s over the %s rows)", n, len(want), want, pred, vis(c.Unscoped)), nil
 		}
 		return "", nil
+	case "count-then":
+		// the pagination idiom: one chain value, first counted, then read
+		q := w.chain(db.Model(&Parent{}))
+		var n int64
+		if err := q.Count(&n).Error; err != nil {
+			return "Count failed: " + err.Error(), nil
+		}
+		pred := c.pred()
+		want := cond.Select(w.prim.visible(c.Unscoped), pred)
+		if c.exact() && n != int64(len(want)) {
+			return fmt.Sprintf("Count returned %d, want %d = ids %v (reference predicate %s over the %s rows)", n, len(want), want, pred, vis(c.Unscoped)), nil
+		}
+		what := "Count, then " + c.Variant + " on the same chain value"
+		switch c.Variant {
+		case "find":
+			var ps []Parent
+			if err := q.Find(&ps).Error; err != nil {
+				return what + " failed: " + err.Error(), nil
+			}
+			return w.judgeRead(w.prim, parentIDs(ps), pred, what), nil
+		case "pluck":
+			var got []int
+			if err := q.Pluck("id", &got).Error; err != nil {
+				return what + " failed: " + err.Error(), nil
+			}
+			return w.judgeRead(w.prim, got, pred, what), nil
+		case "order-limit-find":
+			var ps []Parent
+			if err := q.Order("id").Limit(2).Find(&ps).Error; err != nil {
+				return what + " failed: " + err.Error(), nil
+			}
+			got := parentIDs(ps)
+			for _, id := range got {
+				if r := w.prim.find(id); r == nil || r.State == gone || (r.State == marked && !c.Unscoped) {
+					return fmt.Sprintf("%s returned id %d which is soft-deleted or gone", what, id), nil
+				}
+			}
+			if c.exact() {
+				if len(want) > 2 {
+					want = want[:2]
+				}
+				if !cond.SameIDs(sorted(got), want) {
+					return fmt.Sprintf("%s returned ids %v, want %v (first page; reference predicate %s over the %s rows)", what, got, want, pred, vis(c.Unscoped)), nil
+				}
+			}
+			return "", nil
+		default:
+			var p Parent
+			err := q.First(&p).Error
+			if errors.Is(err, gorm.ErrRecordNotFound) {
+				if c.exact() && len(want) != 0 {
+					return fmt.Sprintf("%s returned ErrRecordNotFound, want id %d", what, want[0]), nil
+				}
+				return "", nil
+			}
+			if err != nil {
+				return what + " failed: " + err.Error(), nil
+			}
+			if r := w.prim.find(p.ID); r == nil || r.State == gone || (r.State == marked && !c.Unscoped) {
+				return fmt.Sprintf("%s returned id %d which is soft-deleted or gone", what, p.ID), nil
+			}
+			if c.exact() && (len(want) == 0 || want[0] != p.ID) {
+				return fmt.Sprintf("%s returned id %d, want the first of %v (reference predicate %s)", what, p.ID, want, pred), nil
+			}
+			return "", nil
+		}
 	case "pluck":
 		var got []int
-		tx := w.chain(db.Model(&Parent{})).Pluck("id", &got)
+		tx := w.chain(db.Model(w.model(0))).Pluck("id", &got)
 		if tx.Error != nil {
 			return "Pluck failed: " + tx.Error.Error(), nil
 		}
@@ -959,7 +1079,7 @@ func (w *world) run() (string, error) {
 			ID int
 			Ca int
 		}
-		tx := w.chain(db.Model(&Parent{})).Scan(&res)
+		tx := w.chain(db.Model(w.model(0))).Scan(&res)
 		if tx.Error != nil {
 			return "Scan failed: " + tx.Error.Error(), nil
 		}
@@ -1233,14 +1353,14 @@ func (w *world) runUpdate() (string, error) {
 	if err != nil {
 		return "", err
 	}
-	tx := w.chain(db.Model(&Parent{ID: c.PK}))
+	tx := w.chain(db.Model(w.model(c.PK)))
 	switch c.Variant {
 	case "Update":
 		tx = tx.Update("mark", 7)
 	case "Updates(map)":
 		tx = tx.Updates(map[string]interface{}{"mark": 7})
 	case "Updates(struct)":
-		tx = tx.Updates(Parent{Mark: 7})
+		tx = tx.Updates(w.markedValue())
 	case "UpdateColumn":
 		tx = tx.UpdateColumn("mark", 7)
 	default:
@@ -1306,7 +1426,7 @@ func (w *world) runDelete() (string, error) {
 		if err != nil {
 			return "", err
 		}
-		tx := w.chain(db).Delete(&Parent{ID: c.PK}, w.inline()...)
+		tx := w.chain(db).Delete(w.model(c.PK), w.inline()...)
 		after, err := w.primSpec.Dump(w.d.SQL)
 		if err != nil {
 			return "", err
@@ -1480,6 +1600,9 @@ func classes(c tcase) []string {
 	}
 	if c.Repeat {
 		cl = append(cl, "delete:repeated")
+	}
+	if c.PtrModel {
+		cl = append(cl, "model:pointer-deleted-at", "pointer-deleted-at:"+c.Path)
 	}
 	for _, h := range c.History {
 		if h.Create != nil {
